@@ -347,3 +347,8 @@ Definition sync_full (linear : bool) (n : Z) (den : positive) (tbin : Z) (tsa ts
       | Some r => inr (d, r)
       end
   end.
+
+(* parabolic_max on a 2-D array (x.ndim == 2 branch): the same three-sample fit along the last axis,
+   row by row (np.vstack of the three fancy-indexed neighbours; edges: maxi[iedges] = v010[1, iedges],
+   ipeak[iedges] = imax[iedges]) *)
+Definition parabolic_max_rows (x : list (list Q)) : list (Q * Q) := map parabolic_max x.
